@@ -74,7 +74,8 @@ ProbeOpt(codes) ==
 \* refusals that must surface as the documented failure value: every OS call except munmap / close / free
 \* (e.calls lists the OS calls the library made, one letter each: a malloc b mmap c mremap d munmap e open f fstat
 \*  g read h close i fopen j fwrite k fclose l free)
-MustReport == armed \notin {"munmap", "close", "close-eintr", "free", ""}
+\* (an early end of the file is no refusal: the call may fail or assemble what there is - it must end and keep the instance intact)
+MustReport == armed \notin {"munmap", "close", "close-eintr", "free", "read-eof", ""}
 
 TwinDiffers(e) == e.twin.ret # e.ret \/ e.twin.off1 # e.off1 \/ e.twin.dest # e.dest \/ (e.twin.outok /\ e.outok /\ e.twin.out # e.out)
 
